@@ -107,6 +107,8 @@ def base_isa(consts):
         'mem': {'operand_values': {'m': {'type': 'indirect_numeric', 'bytecode': code('c_m', 2), 'argument': arg(16, True)}}},
         'defm': {'operand_values': {'d': {'type': 'deferred_numeric', 'bytecode': code('c_d', 2), 'argument': arg(16, True)},
                                     'm': {'type': 'indirect_numeric', 'bytecode': code('c_m2', 2), 'argument': arg(16, True)}}},
+        'isp': {'operand_values': {'i': {'type': 'indirect_register', 'register': 'ix', 'bytecode': code('c_sp', 2),
+                                         'offset': {'size': 8, 'byte_align': True}}}},
         'rel': {'operand_values': {'r': {'type': 'relative_address', 'argument': arg(8, True, min=-128, max=127)}}},
         'rele': {'operand_values': {'r': {'type': 'relative_address', 'offset_from_instruction_end': True,
                                           'argument': arg(8, True, min=-128, max=127)}}},
@@ -119,6 +121,7 @@ def base_isa(consts):
         'ldm': {'bytecode': code('op_ldm', 3), 'operands': {'count': 2, 'operand_sets': {'list': ['regs', 'mem']}}},
         'add': {'bytecode': code('op_add', 2), 'operands': {'count': 2, 'operand_sets': {'list': ['regs', 'regs']}}},
         'ldd': {'bytecode': code('op_ldd', 4), 'operands': {'count': 2, 'operand_sets': {'list': ['regs', 'defm']}}},
+        'lds': {'bytecode': code('op_lds', 6), 'operands': {'count': 1, 'operand_sets': {'list': ['isp']}}},
         'jr': {'bytecode': code('op_jr', 8), 'operands': {'count': 1, 'operand_sets': {'list': ['rel']}}},
         'jre': {'bytecode': code('op_jre', 8), 'operands': {'count': 1, 'operand_sets': {'list': ['rele']}}},
     }
@@ -129,6 +132,9 @@ def base_isa(consts):
                 'instructions': ['nop', 'jr @ARG(0)']}],
         'jje': [{'operands': {'count': 1, 'operand_sets': {'list': ['imm16']}},
                  'instructions': ['n4', 'jre @ARG(0)', 'jr @ARG(0)']}],
+        # the offset of a register-indirect operand next to a tighter operator
+        'ldo': [{'operands': {'count': 1, 'operand_sets': {'list': ['isp']}},
+                 'instructions': ['lds [@REG(0) + 2*@ARG(0)]', 'lds [@REG(0) + 2*@ARG(0)+1]', 'lds @OP(0)']}],
         'nn': [{'instructions': ['n4', 'nop']}],
         'nnn': [{'instructions': ['n12', 'n4', 'n12']}],
         'swp': [{'operands': {'count': 2, 'operand_sets': {'list': ['regs', 'regs']}},
@@ -198,6 +204,13 @@ CATALOGUE = [
      ['ok/ok', 'rejected/rejected']),
     ('variant-choice-independent-of-earlier-invocations', 'inc2 rb\ninc2 ra\ninc2 rb\ninc2 ra',
      'add rb, rb\nnop\nadd ra, ra\nadd rb, rb\nnop\nadd ra, ra', {}, ['ok/ok']),
+    ('indirect-register-positive-offset', 'ldo [ix+v1]', 'lds [ix + 2*v1]\nlds [ix + 2*v1+1]\nlds [ix+v1]', {'v1': (0, 140)},
+     ['ok/ok', 'rejected/rejected']),
+    ('indirect-register-positive-offset-number', 'ldo [ix + 3]', 'lds [ix + 2*3]\nlds [ix + 2*3+1]\nlds [ix + 3]', {}, ['ok/ok']),
+    ('indirect-register-negative-offset', 'ldo [ix-v1]', 'lds [ix - 2*v1]\nlds [ix - 2*v1+1]\nlds [ix-v1]', {'v1': (0, 140)},
+     ['ok/ok', 'rejected/rejected']),
+    ('indirect-register-negative-offset-number', 'ldo [ix - 3]', 'lds [ix - 6]\nlds [ix - 5]\nlds [ix - 3]', {}, ['ok/ok']),
+    ('indirect-register-no-offset', 'ldo [ix]', 'lds [ix]\nlds [ix + 1]\nlds [ix]', {}, ['ok/ok']),
     ('two-invocations', 'a1: jj a1\nnn\na2: jj a1', 'a1: nop\njr a1\nn4\nnop\na2: nop\njr a1', {}, ['ok/ok']),
     ('label-between-macros', 'nn\nmid: jj mid\nldi2 ra, LSB(mid)', 'n4\nnop\nmid: nop\njr mid\nldi ra, LSB(mid)\nldi ra, LSB(mid) + 1',
      {}, ['ok/ok', 'rejected/rejected']),
